@@ -40,6 +40,8 @@ COMPONENTS = {
     "wrapper_shapes": "type Wr {\n" + "\n".join(f"  f{i}: {s.replace('T', 'Int')}" for i, s in enumerate(corpus.SHAPES)) + "\n}\nextend type Query { wr(" + ", ".join(f"a{i}: {s.replace('T', 'Int')}" for i, s in enumerate(corpus.SHAPES[:6])) + "): Wr }\n",
     "unicode_description": '"""Zażółć gęślą jaźń ☃"""\ntype Uni { x: Int }\nextend type Query { uni: Uni }\n',
     "extend_type": "type Ext { a: Int }\nextend type Ext { b: String }\nextend type Query { ext: Ext }\n",
+    "underscore_type_names": "scalar _Any\ntype _Service { sdl: String }\ninterface _Base { id: ID }\ntype _Impl implements _Base { id: ID }\nunion _Entity = _Service | _Impl\nenum _Mode { A }\ninput _In { a: Int }\nextend type Query { _service: _Service! _entities(representations: [_Any!]!, mode: _Mode, i: _In): [_Entity]! }\n",
+    "same_arg_signature_different_docs": 'type Sig {\n  one(\n    "first doc"\n    n: Int = 1\n    old: String @deprecated(reason: "one")\n  ): Int\n  two(\n    "second doc"\n    n: Int = 1\n    old: String @deprecated(reason: "two")\n  ): Int\n  three(n: Int = 1, old: String): Int\n}\nextend type Query { sig: Sig }\n',
     "keyword_names": "type class { def: Int import: String }\nenum None { True False }\nextend type Query { class: class none: None }\n",
 }
 NO_BASE = {"custom_roots"}
